@@ -124,10 +124,30 @@ func registerBadger(e *Engine) {
 		return tuple{box(&bdgDB{commits: 1}), iface{}}
 	})
 	e.reg("(*"+bdgPkg+".DB).Close", func(in *interp, fr *frame, a []value) value { return iface{} })
+	newTxn := func(in *interp, db *bdgDB, upd bool) *value {
+		in.sch.yield("badger:begin")
+		return box(&bdgTxn{db: db, update: upd, snap: append([]bdgEnt(nil), db.ents...), readTs: db.commits})
+	}
 	e.reg("(*"+bdgPkg+".DB).NewTransaction", func(in *interp, fr *frame, a []value) value {
 		db := (*a[0].(*value)).(*bdgDB)
 		upd := in.r.branch(term(a[1]), "badger-update")
-		return box(&bdgTxn{db: db, update: upd, snap: append([]bdgEnt(nil), db.ents...), readTs: db.commits})
+		return newTxn(in, db, upd)
+	})
+	// View / Update: run the closure in a fresh read-only / read-write transaction
+	e.reg("(*"+bdgPkg+".DB).View", func(in *interp, fr *frame, a []value) value {
+		t := newTxn(in, (*a[0].(*value)).(*bdgDB), false)
+		err := in.call(fr, 0, a[1], []value{t})
+		(*t).(*bdgTxn).done = true
+		return err
+	})
+	e.reg("(*"+bdgPkg+".DB).Update", func(in *interp, fr *frame, a []value) value {
+		t := newTxn(in, (*a[0].(*value)).(*bdgDB), true)
+		err := in.call(fr, 0, a[1], []value{t})
+		if !in.isNil(err) {
+			(*t).(*bdgTxn).done = true
+			return err
+		}
+		return in.eng.overrides["(*"+bdgPkg+".Txn).Commit"].f(in, fr, []value{t})
 	})
 	txnOf := func(a []value) *bdgTxn { return (*a[0].(*value)).(*bdgTxn) }
 	e.reg("(*"+bdgPkg+".Txn).ReadTs", func(in *interp, fr *frame, a []value) value {
@@ -140,6 +160,7 @@ func registerBadger(e *Engine) {
 	e.reg("(*"+bdgPkg+".Txn).Get", func(in *interp, fr *frame, a []value) value {
 		t := txnOf(a)
 		k := bytesOf(in, a[1])
+		in.sch.yieldRead("badger:get")
 		t.reads = append(t.reads, k)
 		for i := len(t.pending) - 1; i >= 0; i-- {
 			if in.r.branch(in.bytesEq(t.pending[i].key, k), "badger-pending") {
@@ -211,6 +232,7 @@ func registerBadger(e *Engine) {
 		if len(t.pending) == 0 {
 			return iface{}
 		}
+		in.sch.yield("badger:commit")
 		db := t.db
 		// conflict: a key this transaction read was committed by someone else after the snapshot
 		for _, k := range t.reads {
